@@ -61,3 +61,10 @@ Section TransportTri.
     exists c, T. rewrite gen_trilinear_is_model, gen_to_dense3_is_model. auto.
   Qed.
 End TransportTri.
+
+(* ---------- FacetBasis: which cell "side s" of an oriented facet is ---------- *)
+Require Import ZArith.
+Theorem gen_oriented_side_spec (ori : Z) : (ori = 0 \/ ori = 1)%Z ->
+  ((gen_oriented_row0 ori) mod 2 = ori /\ (gen_oriented_row1 ori) mod 2 = 1 - ori /\
+   (gen_oriented_normal_row ori) mod 2 = ori /\ gen_plain_row 0 = 0 /\ gen_plain_row 1 = 1 /\ gen_plain_normal_row = 0)%Z.
+Proof. intros [->| ->]; vm_compute; repeat split; reflexivity. Qed.
